@@ -84,7 +84,7 @@ def run(ctx):
     bad["norm"] = probe["val"]                          # "sets come back in the order written"
     probe2 = next(s for s in cases if s["ty"] == ["tuple", [["int"], ["text"]]] and s["val"][0] and not s["val"][1])
     bad2 = dict(probe2)
-    bad2["norm"] = [probe2["norm"][1], probe2["norm"][0]]      # the null moved to the other component
+    bad2["norm"] = [probe2["norm"][0], [[]]]                  # "a null component comes back as an empty string"
     V = codec.verdict
     for good, corrupted in ((probe, bad), (probe2, bad2)):
         if V(codec.judge_roundtrip(drv, good, (4,))[1]) == V(codec.judge_roundtrip(drv, corrupted, (4,))[1]):
